@@ -490,9 +490,6 @@ Proof.
 Qed.
 
 (* the world the harness drives: what the setters do to the CAN-ID *)
-Lemma world_static_lemma : forall w x, world_can_id (wstep w (WSetStatic x)) = u32 x.
-Proof. intros. reflexivity. Qed.
-
 Lemma world_cases_lemma : forall w,
   world_can_id w =
   if w_has_static w then w_static w
@@ -506,35 +503,72 @@ Proof.
   cbn [ni_parent_bus ni_node_id andb]. destruct (w_on_bus w); reflexivity.
 Qed.
 
+(* a refused operation changes nothing; an accepted one has the modelled effect *)
+Lemma wstep_refused_lemma : forall w o, accepted w o = false -> wstep w o = w.
+Proof. intros w o H. unfold wstep. rewrite H. reflexivity. Qed.
+
+Lemma wstep_accepted_lemma : forall w o, accepted w o = true -> wstep w o = wapply w o.
+Proof. intros w o H. unfold wstep. rewrite H. reflexivity. Qed.
+
+(* SetStaticCANID: whether accepted or refused (same id again on an attached message), the CAN-ID
+   afterwards is the requested static id *)
+Lemma world_static_lemma : forall w x, world_can_id (wstep w (WSetStatic x)) = u32 x.
+Proof.
+  intros w x. unfold wstep. destruct (accepted w (WSetStatic x)) eqn:E.
+  - reflexivity.
+  - cbn [accepted] in E. apply negb_false_iff in E.
+    apply andb_true_iff in E. destruct E as [E Hx]. apply andb_true_iff in E. destruct E as [_ Hs].
+    rewrite world_cases_lemma, Hs. symmetry. apply Z.eqb_eq. exact Hx.
+Qed.
+
 Lemma world_update_id_detached_lemma : forall w y,
   w_attached w = false -> world_can_id (wstep w (WUpdateID y)) = u32 y.
-Proof. intros w y H. rewrite world_cases_lemma. cbn [wstep w_has_static w_attached w_id]. rewrite H. reflexivity. Qed.
+Proof.
+  intros w y H. unfold wstep.
+  assert (Ha : accepted w (WUpdateID y) = true).
+  { cbn [accepted]. rewrite H. destruct ((u32 y =? w_id w) && negb (w_has_static w)); reflexivity. }
+  rewrite Ha, world_cases_lemma.
+  cbn [wapply upd_msg w_has_static w_attached w_id]. rewrite H. reflexivity.
+Qed.
 
 (* every detach path of the public API leads back to the plain message id *)
 Definition detaches (o : wop) : Prop :=
   o = WDetach \/ o = WDetachAll \/ o = WBusRemove \/ o = WBusRemoveAll \/ o = WRemoveInterface.
 
-Lemma world_detach_lemma : forall w o,
-  detaches o -> w_has_static w = false -> world_can_id (wstep w o) = w_id w.
+Lemma world_detach_apply : forall w o,
+  detaches o -> w_has_static w = false -> world_can_id (wapply w o) = w_id w.
 Proof.
   intros w o Ho Hs. rewrite world_cases_lemma.
-  destruct Ho as [-> | [-> | [-> | [-> | ->]]]]; cbn [wstep w_has_static w_attached w_on_bus w_id];
+  destruct Ho as [-> | [-> | [-> | [-> | ->]]]];
+    cbn [wapply upd_links w_has_static w_attached w_on_bus w_id];
     rewrite Hs; cbn [andb]; try reflexivity; rewrite andb_false_r; reflexivity.
 Qed.
 
+Lemma world_detach_lemma : forall w o,
+  detaches o -> accepted w o = true -> w_has_static w = false -> world_can_id (wstep w o) = w_id w.
+Proof. intros w o Ho Ha Hs. rewrite wstep_accepted_lemma by exact Ha. apply world_detach_apply; assumption. Qed.
+
 Lemma world_reattach_lemma : forall w o,
   detaches o -> w_has_static w = false ->
-  world_can_id (wstep (wstep (wstep w o) WAttach) WBusAdd)
+  world_can_id (wapply (wapply (wapply w o) WAttach) WBusAdd)
   = calculate (nth (w_cur w) (w_builders w) []) (w_prio w) (w_id w) (w_node_id w).
 Proof.
   intros w o Ho Hs. rewrite world_cases_lemma.
   destruct Ho as [-> | [-> | [-> | [-> | ->]]]];
-    cbn [wstep w_has_static w_attached w_on_bus w_id w_prio w_node_id w_builders w_cur];
+    cbn [wapply upd_links w_has_static w_attached w_on_bus w_id w_prio w_node_id w_builders w_cur];
     rewrite Hs; reflexivity.
 Qed.
 
-Lemma world_frame_lemma : forall w, wstep w WFrame = w.
-Proof. reflexivity. Qed.
+(* operations on other entities (network membership of the bus, the second node's interface, the
+   second bus's builder) leave the CAN-ID alone *)
+Definition frame_op (o : wop) : Prop :=
+  o = WNetAdd \/ o = WNetRemove \/ o = WBusAdd2 \/ o = WBusRemove2 \/ exists i, o = WSetBuilderB i.
+
+Lemma world_frame_lemma : forall w o, frame_op o -> world_can_id (wstep w o) = world_can_id w.
+Proof.
+  intros w o Ho. unfold wstep. destruct (accepted w o); [|reflexivity].
+  destruct Ho as [-> | [-> | [-> | [-> | [i ->]]]]]; reflexivity.
+Qed.
 
 (* ---------- hypotheses are satisfiable (non-trivial witnesses) ---------- *)
 Example legal_witness : legal 31 1 /\ legal 0 32 /\ legal 4 7 /\ value_kind KMessageID /\ in32 4294967295.
